@@ -10,6 +10,8 @@ mod tests_app;
 mod tests_block_ordering;
 #[cfg(test)]
 mod tests_breaking_changes;
+#[cfg(feature = "verif")]
+mod verif_hooks;
 
 pub(crate) mod vote_extension;
 
